@@ -108,6 +108,21 @@ def rule_helper_prov_for(pid=None):
                                           b["file"], b["line"]))
         for key, grp in HT.anchors(facts.config):
             if grp in groups and key not in comp:
+                # a private helper moved to another module keeps its body: look for it without module qualifiers
+                sk = mirq.short_key(key)
+                moved = [b_ for b_ in facts.bodies if b_["kind"] != "Closure" and b_["uname"] not in comp and mirq.short_key(b_["uname"]) == sk]
+                if len(moved) == 1:
+                    import nf as _nf
+                    got_ = signature(facts, moved[0])
+                    want_ = HT.lookup(key, facts.config)
+                    ok_ = want_ is not None and (sorted(want_) == got_ or _nf.equal_up_to_renaming(got_, want_))
+                    n += 1
+                    r.ob(ok_)
+                    if not ok_:
+                        r.violations.append(V("HELPER-PROV", moved[0]["uname"], "helper body [%s] (moved from %s)" % (grp, key),
+                                              "%s must perform exactly the reviewed operations: computed %s, expected %s" % (moved[0]["uname"], got_, want_),
+                                              moved[0]["file"], moved[0]["line"]))
+                    continue
                 r.errors.append("anchor %s: no such helper body in this configuration" % key)
         r.explanation = ("%d helper bodies (groups %s) perform exactly the reviewed calls / field writes and return the reviewed provenance term "
                          "(spec/helper_table.py)" % (n, ", ".join(groups)))
@@ -533,8 +548,20 @@ def rule_panic_inv(facts):
         comp[base + "#file"] = (b["file"], b["line"])
     files = {k[:-5]: v for k, v in comp.items() if k.endswith("#file")}
     comp = {k: v for k, v in comp.items() if "#" not in k}
+    # a private function that was renamed or moved keeps its panic sites: an unlisted function is paired with a listed one that no longer
+    # exists when both have exactly the same sites (same file first; one-to-one)
+    present = {re.sub(r"(::\{closure#\d+\})+$", "", re.sub(r"<.*", "", b_["uname"])) for b_ in facts.bodies}
+    vanished = {k: v for k, v in PT.PANIC_SITES.items() if k not in present}
+    renamed = {}
     for base, c in sorted(comp.items()):
-        want = PT.PANIC_SITES.get(base, {})
+        if base in PT.PANIC_SITES:
+            continue
+        cands = [k for k, v in vanished.items() if v == dict(c) and k not in renamed.values()]
+        same_mod = [k for k in cands if k.split("::")[0] == base.split("::")[0]] or [k for k in cands if mirq.short_key(k) == mirq.short_key(base)]
+        if len(same_mod) == 1:
+            renamed[base] = same_mod[0]
+    for base, c in sorted(comp.items()):
+        want = PT.PANIC_SITES.get(renamed.get(base, base), {})
         for kind, cnt in sorted(c.items()):
             n += 1
             ok = cnt <= want.get(kind, 0)
